@@ -28,13 +28,13 @@ def run(ctx):
     )
     run.trusted_base = ["CPython ast / re._parser"]
     run.assumptions = ["iterpath / _evaluate_expression / _validate_selector / validate keep their roles (anchors)"]
-    rule_truthiness(ctx)
-    rule_positional_index(ctx)
-    rule_every_construction(ctx)
-    rule_every_function(ctx)
-    rule_syntax_agreement(ctx)
-    rule_reject(ctx)
-    rule_descends(ctx)
+    ctx.do(rule_truthiness)
+    ctx.do(rule_positional_index)
+    ctx.do(rule_every_construction)
+    ctx.do(rule_every_function)
+    ctx.do(rule_syntax_agreement)
+    ctx.do(rule_reject)
+    ctx.do(rule_descends)
 
 
 def _bool_uses(node, name):
